@@ -23,8 +23,9 @@ class Jitter:
     """wraps Local; counts outstanding transfers (exists/upload/download/delete; listing is not a transfer)"""
     TRANSFERS = ('exists', 'upload', 'upload_stream', 'download', 'download_stream', 'delete')
 
-    def __init__(self, inner, rnd, use_async, fail_on=None):
+    def __init__(self, inner, rnd, use_async, fail_on=None, slow_download=0.0):
         self.inner, self.rnd, self.use_async = inner, rnd, use_async
+        self.slow_download = slow_download
         self.lock = threading.Lock()
         self.outstanding = 0
         self.max_outstanding = 0
@@ -42,6 +43,9 @@ class Jitter:
             delay = self.rnd.random() * 0.004
         return n, delay
 
+    def _delay_for(self, name, delay):
+        return self.slow_download if (self.slow_download and name == 'download_stream') else delay
+
     def _exit(self):
         with self.lock:
             self.outstanding -= 1
@@ -52,7 +56,7 @@ class Jitter:
             async def call(*a, **k):
                 n, delay = self._enter()
                 try:
-                    await asyncio.sleep(delay)
+                    await asyncio.sleep(self._delay_for(name, delay))
                     if self.fail_on is not None and n >= self.fail_on and name in ('upload_stream', 'download_stream'):
                         raise OSError('injected permanent failure')
                     return fn(*a, **k)
@@ -62,7 +66,7 @@ class Jitter:
             def call(*a, **k):
                 n, delay = self._enter()
                 try:
-                    time.sleep(delay)
+                    time.sleep(self._delay_for(name, delay))
                     if self.fail_on is not None and n >= self.fail_on and name in ('upload_stream', 'download_stream'):
                         raise OSError('injected permanent failure')
                     return fn(*a, **k)
@@ -113,8 +117,8 @@ ON_HANG = None
 FILESETS = [[0, 5, 64, 130, 7], [300, 300, 300], [16, 16, 16, 16, 16, 16, 1000]]
 
 
-async def run_case(base, sizes, n, use_async, seed, fail_on=None, identical=False):
-    d = base / f'case_{len(sizes)}_{n}_{int(use_async)}_{seed}_{fail_on}'
+async def run_case(base, sizes, n, use_async, seed, fail_on=None, identical=False, slow_download=0.0):
+    d = base / f'case_{len(sizes)}_{n}_{int(use_async)}_{seed}_{fail_on}_{slow_download}'
     (d / 'src').mkdir(parents=True)
     files = {}
     for i, sz in enumerate(sizes):
@@ -122,7 +126,7 @@ async def run_case(base, sizes, n, use_async, seed, fail_on=None, identical=Fals
         p.write_bytes(lib.content(7 if identical else i + seed, sz))
         files[str(p.resolve())] = p.read_bytes()
     rnd = random.Random(seed)
-    backend = Jitter(Local(d / 'repo'), rnd, use_async, fail_on)
+    backend = Jitter(Local(d / 'repo'), rnd, use_async, fail_on, slow_download)
     repo = Repository(backend, concurrent=n, quiet=True, cache_directory=None)
     problems = []
     async def commands():
@@ -167,6 +171,7 @@ def main():
     payload = lib.read_payload()
     tier, seed = payload.get('tier', 'quick'), int(payload.get('seed', 0))
     repomod.threading = ThreadingShim          # restore's glock / flocks become yielding locks (no repo edit)
+    global ON_HANG
     failures, samples, cases = [], [], 0
     seeds = range(seed, seed + (16 if tier == 'thorough' else 2))
     with lib.scratch('vf_c09_') as base:
@@ -186,7 +191,6 @@ def main():
                                           'exhaustive': False, 'reproduced': True, 'stopped_after_hang': True})
                                 sys.stdout.flush()
                                 os._exit(0)
-                            global ON_HANG
                             ON_HANG = on_hang
                             try:
                                 probs = asyncio.run(run_case(base, sizes, n, use_async, sd, fail_on, identical=(sizes == FILESETS[1])))
@@ -196,6 +200,25 @@ def main():
                                 failures.append({'id': f'sched{cases}', 'class': None, 'case': case, 'detail': probs[:3]})
                             if len(samples) < 3:
                                 samples.append(case)
+        # a SLOW backend (each download takes longer than any polling interval a waiter might use) with more waiters than
+        # slots: every waiter still gets its turn and the command ends with the right bytes and all slots back
+        for use_async in (False, True):
+            cases += 1
+            case = {'sizes': [200], 'concurrent': 1, 'async_backend': use_async, 'seed': seed, 'slow_download_s': 1.15}
+
+            def on_hang2(probs, case=case):
+                failures.append({'id': f'slow{int(use_async)}', 'class': None, 'case': case, 'detail': probs})
+                lib.emit({'status': 'ok', 'cases': cases, 'distinct': cases, 'failures': failures[:10], 'samples': samples,
+                          'exhaustive': False, 'reproduced': True, 'stopped_after_hang': True})
+                sys.stdout.flush()
+                os._exit(0)
+            ON_HANG = on_hang2
+            try:
+                probs = asyncio.run(run_case(base, [200], 1, use_async, seed, None, slow_download=1.15))
+            except Exception as e:
+                probs = [{'problem': 'harness exception', 'error': f'{type(e).__name__}: {e}'[:300]}]
+            if probs:
+                failures.append({'id': f'slow{int(use_async)}', 'class': None, 'case': case, 'detail': probs[:3]})
     lib.emit({'status': 'ok', 'cases': cases, 'distinct': cases, 'failures': failures[:10], 'samples': samples,
               'exhaustive': False, 'reproduced': bool(failures)})
 
